@@ -15,6 +15,7 @@ import struct
 from . import dag
 from .dag import Node
 from .llparse import Const, Local, Ty, Module, ParseError
+from . import llparse
 
 
 class Unsupported(Exception):
@@ -1434,6 +1435,20 @@ class Executor:
             return None
         if name == "verif_launder":
             return args[0]
+        if name == "verif_uf":
+            # uninterpreted function (an arbitrary callable passed to a higher-order routine under contract):
+            # out[k] = uf:<id>:<k>(in[0..nin-1]); every call is recorded as an event with its argument DAGs
+            fid, pin, nin, pout, nout = args
+            if not all(isinstance(v, int) for v in (fid, nin, nout)):
+                raise Unsupported("verif_uf with symbolic sizes")
+            pin, pout = _asptr(self, pin), _asptr(self, pout)
+            xs = [self.load(Ptr(pin.obj, pin.off + 8 * i), llparse.DOUBLE) for i in range(nin)]
+            if any(not isinstance(v, dag.Node) for v in xs):
+                raise PathAbort("memsafety", "verif_uf reads an uninitialised argument")
+            self.path.events.append(("uf", fid, tuple(xs)))
+            for k in range(nout):
+                self.store(Ptr(pout.obj, pout.off + 8 * k), dag.call("uf:%d:%d" % (fid, k), *xs), llparse.DOUBLE)
+            return None
         if name == "verif_const_begin":
             self.path.region = {id(o): (o, set(o.written)) for o in self.path.objs}
             for o in self.path.objs:
